@@ -9,7 +9,7 @@ from .. import gen, impl, oracle, ser, stream
 
 ID = "C16"
 LEVEL = "proof"
-PROPS_MODULE = "SymmModel.Props.C16"
+PROPS_MODULE = "SymmModel.Props.C16All"
 THEOREMS = [
     "SymmModel.C16.classSymmetry_spec",
     "SymmModel.C16.classSymmetry_static_none",
@@ -40,9 +40,15 @@ THEOREMS = [
     "SymmModel.C16.origAll_eq",
     "SymmModel.C16.fromDense_toDense",
     "SymmModel.C16.fromDense_toDense_of_valid",
-    "SymmModel.C16.labelsOf_spec"
+    "SymmModel.C16.labelsOf_spec",
+    "SymmModel.C16.fromFillFn_toDense",
+    "SymmModel.C16.zeros_toDense",
+    "SymmModel.C16.const_toDense",
+    "SymmModel.C16.fromDense_error_indep",
+    "SymmModel.C16.fromDense_ignores_invalid",
+    "SymmModel.C16.fromDense_lossless_iff"
 ]
-LEAN_FILES = ["SymmModel.Props.C16", "SymmModel.Proofs.DenseLemmas"]
+LEAN_FILES = ["SymmModel.Props.C16", "SymmModel.Proofs.DenseLemmas", "SymmModel.Props.C16b", "SymmModel.Props.C16All", "SymmModel.Proofs.Dense3c"]
 PLANNED = []
 RULE = ("random tensors described four ways (direct constructor, from_blocks, from_dense with per-axis charge "
         "labels, from_fill_fn) on fixed-symmetry and generic classes, abelian and fermionic, every combination of "
